@@ -1,4 +1,5 @@
 import Logrange.Props.C07
+import Logrange.Model.Points
 /-! C07 goal 4 (partial): from the recovered index entries to the hull-level RANGE answer, in one theorem. -/
 namespace Logrange.Props.C07Hull
 open Logrange.Persist Logrange.Generated.C07 Logrange.Props.C07
@@ -84,6 +85,27 @@ theorem hullOk_grow (ci : ChkInfo) (cid : Nat) (recs more : List Int) (h : HullO
   apply h t
   simp only at ht ⊢
   rwa [List.take_append_of_le_length hle] at ht
+
+/-- **C07's `HullOk` is C02's hull soundness** (`Points.HullSound`, the `hullOk` field of `RebuildHist.SoundL`) for the entry's
+hull, the chunk's records as a position function (`fun q => recs.getD q 0`, which is `PartHist.tsOfList recs` by definition; only
+`Model/Points.lean` is imported, so that this check does not build C02's proofs) and the entry's record count — the interface of the
+refinement between the recovery model and C02's pipeline state (design-notes/C02.md, "Note for C07") -/
+theorem hullOk_iff_c02_hullSound (ci : ChkInfo) (ck : Chunk) (hle : ci.recs ≤ ck.recs.length) :
+    HullOk ci ck ↔ Logrange.Points.HullSound ⟨ci.minTs, ci.maxTs⟩ (fun q => ck.recs.getD q 0) ci.recs := by
+  constructor
+  · intro h p hp
+    have hlt : p < ck.recs.length := by omega
+    have hm : ck.recs[p] ∈ ck.recs.take ci.recs := by
+      rw [List.mem_take_iff_getElem]
+      exact ⟨p, by omega, rfl⟩
+    have := h _ hm
+    simpa [List.getD_eq_getElem?_getD, List.getElem?_eq_getElem hlt] using this
+  · intro h t ht
+    rw [List.mem_take_iff_getElem] at ht
+    obtain ⟨p, hp, rfl⟩ := ht
+    have hlt : p < ck.recs.length := by omega
+    have := h p (by omega)
+    simpa [List.getD_eq_getElem?_getD, List.getElem?_eq_getElem hlt] using this
 
 /-! non-vacuity: a stale entry (2 of 3 records) that keeps its promise, and one that does not -/
 example : HullOk ⟨1, 10, 20, 0, 2⟩ ⟨1, [10, 20, 30]⟩ := by
